@@ -19,7 +19,8 @@ EXPLANATION = (
     'symmetrically (P4); all reshapes use the (lattice, units, dims, terms) '
     'factor order (X3). Monotone/bounded outputs over all inputs are a theorem '
     'about products of interpolants and are NOT decided here.'
-    ' Also decided: finalize_constraints stores the projection with assign, not assign_add of a difference (R1); gradient masks take the operand dtype (D1); with clip_inputs on, every path of the KFL evaluation clips (X5); abs is taken before the maximum (B1).')
+    ' Also decided: finalize_constraints stores the projection with assign, not assign_add of a difference (R1); gradient masks take the operand dtype (D1); with clip_inputs on, every path of the KFL evaluation clips (X5); abs is taken before the maximum (B1).'
+    ' Nothing that is used later is computed from a value before the statement that clips that value (X5, self-clip order).')
 ASSUMPTIONS = [
     'Keras re-applies variable.constraint after each optimizer update',
     'the abstract states none/zero/non-zero (bounds) and none/empty/all-zero/'
